@@ -553,19 +553,28 @@ def coq_judge(ctx, trc, wordc, ownc, acctc=()):
     judged["transitions"] = len(done)
     # (ii) the word chain and the owner words
     if wordc:
+        # word_ok is a per-word predicate: long chains are cut into pieces (a list literal of several 10^4 numbers overflows
+        # coqc's stack); positions are re-based afterwards
+        PIECE = 6000
+        pieces = [(n, o, c["words"][o:o + PIECE]) for n, c in enumerate(wordc) for o in range(0, max(len(c["words"]), 1), PIECE)]
         body = ""
-        for n, c in enumerate(wordc):
-            body += "Definition w%d : list Z := %s.\n" % (n, zl(c["words"]))
-        body += "Eval vm_compute in [%s].\n" % "; ".join("failing (word_ok %d) w%d 0" % (c["W"], n) for n, c in enumerate(wordc))
+        for k, (n, o, ws) in enumerate(pieces):
+            body += "Definition w%d : list Z := %s.\n" % (k, zl(ws))
+        body += "Eval vm_compute in [%s].\n" % "; ".join("failing (word_ok %d) w%d 0" % (wordc[n]["W"], k) for k, (n, o, ws) in enumerate(pieces))
         vals, prob = _coq("c04_words", imports, body)
-        lists = re.findall(r"\[([^\[\]]*)\]", vals[0]) if vals is not None else []
-        if vals is None or len(lists) != len(wordc):
+        plists = re.findall(r"\[([^\[\]]*)\]", vals[0]) if vals is not None else []
+        lists = None
+        if vals is not None and len(plists) == len(pieces):
+            lists = [[] for _ in wordc]
+            for (n, o, ws), l in zip(pieces, plists):
+                lists[n] += [o + x for x in driver.ints(l)]
+        if lists is None:
             mism.append({"what": "the word judge (CLaneJudge.word_ok) could not be evaluated on the %d value chains: they are NOT checked"
                                  % len(wordc), "detail": {"coq": prob or vals[0][:300], "run": wordc[0]["info"].get("run")}})
         else:
             judged["words"] = sum(len(c["words"]) for c in wordc)
             for c, l in zip(wordc, lists):
-                bad = driver.ints(l)
+                bad = list(l)
                 if bad:
                     d = dict(c["info"])
                     d.update({"position": bad[0], "word": c["words"][bad[0]] if bad[0] < len(c["words"]) else None, "width": c["W"],
@@ -573,20 +582,22 @@ def coq_judge(ctx, trc, wordc, ownc, acctc=()):
                     mism.append({"what": "a state of the dq_state value chain violates the word-level projection of the proved width accounting "
                                  "(CLaneJudge.word_ok): width field below its base, IN_BARRIER without the exact full width or without an owner",
                                  "detail": d})
-    if ownc:
-        body = "Definition cases : list (list Z) := [\n" + ";\n".join(zl([c["w"], c["self"]]) for c in ownc) + "].\n"
+    # in chunks: one list literal of several 10^4 words overflows coqc's stack (thorough tier)
+    for c0 in range(0, len(ownc), 4000):
+        part = ownc[c0:c0 + 4000]
+        body = "Definition cases : list (list Z) := [\n" + ";\n".join(zl([c["w"], c["self"]]) for c in part) + "].\n"
         body += "Eval vm_compute in failing (fun c => match c with [w; t] => owner_ok w t | _ => false end) cases 0.\n"
-        vals, prob = _coq("c04_owner", imports, body)
+        vals, prob = _coq("c04_owner_%d" % c0, imports, body)
         if vals is None:
-            mism.append({"what": "the owner judge (CLaneJudge.owner_ok) could not be evaluated on %d words: they are NOT checked" % len(ownc),
-                         "detail": {"coq": prob, "run": ownc[0]["info"].get("run")}})
+            mism.append({"what": "the owner judge (CLaneJudge.owner_ok) could not be evaluated on %d words: they are NOT checked" % len(part),
+                         "detail": {"coq": prob, "run": part[0]["info"].get("run")}})
         else:
-            judged["owner_words"] = len(ownc)
+            judged["owner_words"] = judged.get("owner_words", 0) + len(part)
             for k in driver.ints(vals[0]):
-                if 0 <= k < len(ownc):
+                if 0 <= k < len(part):
                     mism.append({"what": "a thread wrote dq_state as the barrier owner (barrier completion / right after its barrier item) "
                                  "while the word did not name it as the owner with IN_BARRIER set (CLaneJudge.owner_ok)",
-                                 "detail": ownc[k]["info"]})
+                                 "detail": part[k]["info"]})
     # (iii) the width accounting itself (CLaneJudge.acct_ok = the equation of C04_width_accounting) on the reconstructed ghost state
     flat = [(n, k) for n, c in enumerate(acctc) for k in range(len(c["cases"]))]
     failing = {}
